@@ -47,6 +47,7 @@ REPLAYS = os.path.join(ROOT, "replays")
 KNOWN = os.path.join(ROOT, "known_findings.json")
 SUITES = ["ed25519", "ristretto255", "ed448", "p256", "secp256k1", "secp256k1-tr"]
 NCPU = os.cpu_count() or 4
+PRELUDE = {"ed25519": "p256", "ristretto255": "ed448", "ed448": "ed25519", "p256": "ed25519", "secp256k1": "ed448", "secp256k1-tr": "ed25519"}
 
 from props import PROPS  # noqa: E402  (per-property configuration)
 
@@ -134,8 +135,13 @@ def run_shards(prop, cfg, tier, seed, outdir, only=None, binpath=None, env=None)
             cmd = [binpath, prop, "--suite", s, "--tier", tier, "--seed", str(seed), "--out", outdir]
             if only:
                 cmd += ["--only-item", str(only["item"])]
+                if only.get("prelude"):
+                    cmd += ["--prelude", only["prelude"]]
             else:
                 cmd += ["--shard", f"{i}/{n}"]
+                if i % 2 == 1:
+                    # odd shards: another ciphersuite (with other encoding sizes) is used first in the same process
+                    cmd += ["--prelude", PRELUDE[s]]
             jobs.append((s, i, cmd))
     watchdog = cfg.get("watchdog", {"quick": 900, "thorough": 7200})[tier]
     running, results, dead = [], [], []
@@ -264,7 +270,7 @@ def main():
     only = None
     if replay:
         tier, seed = replay.get("tier", tier), replay.get("seed", seed)
-        only = {"suite": replay["suite"], "item": replay["item"]}
+        only = {"suite": replay["suite"], "item": replay["item"], "prelude": replay.get("prelude")}
     if cfg.get("profiles"):
         results, dead, secs = [], [], 0.0
         for prof in cfg["profiles"]:
@@ -280,6 +286,11 @@ def main():
             secs += s_
     else:
         results, dead, secs = run_shards(prop, cfg, tier, seed, outdir, only=only)
+    if cfg.get("second_phase") and not replay:
+        r2, d2, s2 = cfg["second_phase"](prop, tier, seed, outdir, FV, limit_child, PRELUDE)
+        results += r2
+        dead += d2
+        secs += s2
     m = merge(results)
 
     # 5. a dead shard: C14 attributes it to its last input, everything else is inconclusive
